@@ -94,6 +94,27 @@ func ifaceKey(t types.Type, m *types.Func) string {
 }
 
 func (ex *Exec) setResult(c *ssa.Call, r Val) {
+	if ex.con != nil && len(ex.con.Captures) > 0 {
+		name := ""
+		com := c.Common()
+		if com.IsInvoke() {
+			name = com.Method.Name()
+		} else if cal := com.StaticCallee(); cal != nil {
+			name = cal.Name()
+		}
+		if name != "" {
+			if ex.callOrd == nil {
+				ex.callOrd = map[string]int{}
+				ex.captured = map[string]Val{}
+			}
+			key := fmt.Sprintf("%s#%d", name, ex.callSiteOrdinal(c, name))
+			for _, cp := range ex.con.Captures {
+				if cp[1] == key {
+					ex.captured[cp[0]] = r
+				}
+			}
+		}
+	}
 	if c.Type() == nil {
 		return
 	}
@@ -197,6 +218,19 @@ func (ex *Exec) applyContract(cc *Contract, c *ssa.Call, args []Val, calleeName 
 		}
 	}
 	for _, cl := range cc.Ensures {
+		// ghost/capture parameters of the callee are internal to it: unknown here
+		if cl.Fn != nil {
+			for i, nm := range cl.Names {
+				if _, ok := m[nm]; !ok {
+					for _, gp := range cc.Ghost {
+						if gp.Name == nm {
+							m[nm] = ex.env.freshVal("ghost_"+nm, cl.Fn.Params[i].Type())
+							ex.flushFacts()
+						}
+					}
+				}
+			}
+		}
 		ex.assumeHere(ex.clauseTerm(cl, m, post, pre, false))
 	}
 	ex.setResult(c, res)
@@ -786,8 +820,8 @@ func (ex *Exec) frameCheck(p token.Pos) {
 	e := ex.e
 	vars, all := ex.modSet(nil)
 	if all {
-		ex.oblige("frame", "calls-unknown-code", "false", p)
-		return
+		// unknown code may run somewhere in the function: not on a path that returns normally
+		ex.oblige("frame", "no-unknown-code-on-returning-paths", fmt.Sprintf("(not %s)", ex.st.get("jsfx")), p)
 	}
 	// designators per heap var
 	type cover struct {
@@ -929,4 +963,39 @@ func (ex *Exec) structRefHeaps(t types.Type, r string, f func(h, r string)) {
 		h, _ := e.fieldHeap(t, i)
 		f(h, r)
 	}
+}
+
+// callSiteOrdinal: the 1-based position of call c among the calls to a function/method named name,
+// in source order of the enclosing function.
+func (ex *Exec) callSiteOrdinal(c *ssa.Call, name string) int {
+	type site struct {
+		pos int
+		c   *ssa.Call
+	}
+	var sites []site
+	for _, b := range ex.fn.Blocks {
+		for _, in := range b.Instrs {
+			cc, ok := in.(*ssa.Call)
+			if !ok {
+				continue
+			}
+			com := cc.Common()
+			n := ""
+			if com.IsInvoke() {
+				n = com.Method.Name()
+			} else if cal := com.StaticCallee(); cal != nil {
+				n = cal.Name()
+			}
+			if n == name {
+				sites = append(sites, site{int(cc.Pos()), cc})
+			}
+		}
+	}
+	sort.Slice(sites, func(i, j int) bool { return sites[i].pos < sites[j].pos })
+	for i, s := range sites {
+		if s.c == c {
+			return i + 1
+		}
+	}
+	return 0
 }
